@@ -47,6 +47,18 @@ def main():
     shutil.copy(os.path.join(src, "patch.diff"), os.path.join(dst, "patch.diff"))
     meta = os.path.join(src, "meta.md")
     rec["author_notes"] = open(meta).read()[:4000] if os.path.exists(meta) else ""
+    old = {}
+    if os.path.exists(os.path.join(dst, "meta.json")):
+        try:
+            old = json.load(open(os.path.join(dst, "meta.json")))
+        except Exception:
+            old = {}
+    merged = dict(old.get("checks", {}))
+    for p_, c in rec["checks"].items():
+        c = dict(c)
+        c["run"] = "second pass, after the third-round strengthening of the checks"
+        merged[p_ + " (2nd)"] = c
+    rec["checks"] = merged
     with open(os.path.join(dst, "meta.json"), "w") as fh:
         json.dump(rec, fh, indent=1)
     print(json.dumps({k: v for k, v in rec.items() if k not in ("author_notes",)}, indent=1)[:1500])
